@@ -589,7 +589,7 @@ class Builder:
         pd.nbits = used
         pd.t = t
         pd.item = None
-        return ["msg", None, name, ext, body], pd
+        return ["msg", None, name, ext, body, {"nbits": used}], pd
 
     def gen_file(self, depth_left: int, top_name: Optional[str] = None) -> str:
         rng = self.rng
